@@ -37,6 +37,22 @@ def run(ctx):
             futs += [ex.submit(one, ctx, binary, 2, 1, p, 2, "d2") for p in range(2)]
         for f in futs:
             f.result()
+    # a breaker classifies the outcome the function produced, also when that outcome arrives after the execution was cancelled
+    # (Timeout fired, caller's context cancelled): threaded model, the breaker's counters are probed at quiescence and by a
+    # second execution
+    import p_c07, tscen
+    from tscen import scenario, fn, start, env, to, retry, fb, cb, cE, cR
+    B2 = dict(tscen.BR1, fthr=2, fcap=2)
+    scs = []
+    for mk in (lambda h: [to(2), cb("c", h=h)], lambda h: [cb("c", h=h)], lambda h: [fb(), to(2), cb("c", B2, h=h)], lambda h: [to(2), retry(1), cb("c", B2, h=h)]):
+        for h in ([], [cE("E1")], [cR("R2")]):
+            st = mk(h)
+            for oc in (("R0", "E1"), ("R1", None), ("R0", "E2"), ("R2", None)):
+                for coop in (False, True):
+                    fns = [[fn(3, oc[0], oc[1], coop)] * 3, [fn(1, "R1")] * 2]
+                    evs = [start(1), start(2, 6)]
+                    scs.append(scenario(st, fns, evs if st[0]["k"] != "cb" else evs + [env("CtxCancel", 1, 1)]))
+    p_c07.run_family(ctx, "c12t", scs)
     return vlib.finish(ctx, rule="complete table: every (set of <= MaxRegs registrations out of 9) x (3 results) x (nil + every error term up to TermDepth over "
                        "{E1,E2,E3,TV,TP} with W, WT, J); each row observed through fallback, retry, breaker (3 ways), abort and hedge-cancel; "
                        "non-trivial = row has at least one registration and an error", exhaustive=True)
